@@ -1,7 +1,7 @@
 import Pybes3Verif.Props.C17
 /-!
 Refutation of the draft of `atomic_then_check_content_fresh` without the known-table hypothesis: the history
-`cexOps = [.spawn, .firstUse 0 2 0, .touchTable 2]` is atomic, yet after a complete check the cache file of the
+`cexOps = [.spawn, .firstUse 0 2 0 0, .touchTable 2]` is atomic, yet after a complete check the data file of the
 unknown table 2 (built from version 0, table now at version 1) is still there.
 -/
 namespace Pybes3Verif.Cache
@@ -20,7 +20,7 @@ theorem cexOps_atomic : AtomicFirstUse init cexOps := by
 theorem atomic_then_check_content_fresh_unrestricted_false :
     ¬ (∀ ops : List Op, AtomicFirstUse init ops → ContentFresh (step (run ops) (.importCheck none))) := by
   intro h
-  have := h cexOps cexOps_atomic ⟨2, 0, 2, 0⟩ (by decide)
+  have := h cexOps cexOps_atomic ⟨2, 0, some 0, 2, 0⟩ (by decide) rfl
   revert this
   decide
 
